@@ -105,6 +105,11 @@ let apply_op (op : string) (t : jv) (aside : jv option) (out : string list ref) 
   | 'U' -> let (p, rest) = parse_path body in (hop_apply (HSetUint64 (nat_path p, z_of_string (after_eq rest))) t, aside)
   | 'B' -> let (p, rest) = parse_path body in (hop_apply (HSetBoolean (nat_path p, after_eq rest = "1")) t, aside)
   | 'T' -> let (p, rest) = parse_path body in (hop_apply (HSetString (nat_path p, bytes_of_hex (after_eq rest))) t, aside)
+  | 'Z' | 'Y' -> let (p, rest) = parse_path body in ignore (after_eq rest); (hop_apply (HResetSerializer (nat_path p)) t, aside)
+  | 'G' -> let (p, rest) = parse_path body in ignore (after_eq rest);
+    (* only a double takes the format serializer; on a double the net effect is the reset *)
+    (hop_apply (HResetSerializer (nat_path p)) t, aside)
+  | 'W' -> let (p, rest) = parse_path body in ignore (after_eq rest); (hop_apply (HSetUserdata (nat_path p)) t, aside)
   | 'A' -> let (p, rest) = parse_path body in
     if String.length rest = 0 || rest.[0] <> ':' then raise (Stop "BADOP");
     if p = [] then (t, aside) else
